@@ -172,9 +172,9 @@ def random_tree(rng: Any, depth: int, pos: str = 'expr') -> Any:
         if r < 0.7:
             return K(rng.choice(['0', '1', '42', '2.5', '1e3', '3j', '10000000000']))
         if r < 0.85:
-            return S(rng.choice(['', 'x', "it's", 'a\nb', 'longer string value', '"', '\\d+']))
+            return S(rng.choice(['', 'x', "it's", 'a\nb', 'longer string value', '"', '\\d+', 'nul\x00 here']))
         if r < 0.9:
-            return [0, 2, list(rng.choice([b'', b'ab', b'\x00\xff', b'a"b']))]
+            return [0, 2, list(rng.choice([b'', b'ab', b'\x00\xff', b'a"b', b"it's", b"a'\nb"]))]
         return [0, rng.choice([3, 4, 5, 6]), None]
     sub = lambda: random_tree(rng, depth - 1)
     r = rng.random()
